@@ -12,6 +12,14 @@ CT_FUNCS = [('secp256k1_scalar_is_zero', []), ('secp256k1_scalar_cmov', []), ('s
             ('secp256k1_fe_impl_negate_unchecked', []), ('secp256k1_fe_impl_add', []), ('secp256k1_fe_impl_half', []), ('secp256k1_fe_impl_is_odd', [])]
 PROOFS = {'secp256k1_fe_mul_inner': ('Kernel/Field5x52.vo', 'fe_mul_inner_correct'),
           'secp256k1_fe_sqr_inner': ('Kernel/Field5x52Sqr.vo', 'fe_sqr_inner_correct')}
+# proofs over the regenerated branch-free primitives: (function, .vo, theorem)
+CT_PROOFS = [('secp256k1_fe_impl_normalize', 'Kernel/FieldNormalize.vo', 'fe_normalize_correct'),
+             ('secp256k1_scalar_check_overflow', 'Kernel/Scalar4x64.vo', 'scalar_check_overflow_correct'),
+             ('secp256k1_scalar_is_high', 'Kernel/Scalar4x64.vo', 'scalar_is_high_correct'),
+             ('secp256k1_scalar_cmov', 'Kernel/CtPrimitives.vo', 'scalar_cmov_correct'),
+             ('secp256k1_fe_impl_cmov', 'Kernel/CtPrimitives.vo', 'fe_cmov_correct'),
+             ('secp256k1_fe_storage_cmov', 'Kernel/CtPrimitives.vo', 'fe_storage_cmov_correct'),
+             ('secp256k1_scalar_is_zero', 'Kernel/CtPrimitives.vo', 'scalar_is_zero_correct')]
 
 def regenerate(funcs=None):
     """returns {fn: (ok, message)}; writes Gen/<short>.v only when its content changes"""
@@ -92,6 +100,13 @@ def kernel_obligations(chk):
         vo, thm = PROOFS[fn]
         built = os.path.exists(os.path.join(vlib.COQ, vo)) and os.path.getmtime(os.path.join(vlib.COQ, vo)) >= os.path.getmtime(os.path.join(vlib.COQ, 'Gen', fn.replace('secp256k1_', '') + '.v'))
         chk.obligation('kernel theorem %s over regenerated %s' % (thm, fn), built and ('Error' not in log or rc == 0), log[-3000:])
+    tg = sorted(set(vo for fn, vo, thm in CT_PROOFS if ctres.get(fn, (False,))[0]))
+    rc2, log2 = vlib.coq_make(tg, timeout=int(os.environ.get('VERIF_KERNEL_TIMEOUT', '480')))
+    for fn, vo, thm in CT_PROOFS:
+        if not ctres.get(fn, (False,))[0]: continue
+        gv = os.path.join(vlib.COQ, 'Gen', fn.replace('secp256k1_', '') + '.v'); vop = os.path.join(vlib.COQ, vo)
+        built = os.path.exists(vop) and os.path.getmtime(vop) >= os.path.getmtime(gv)
+        chk.obligation('kernel theorem %s over regenerated %s' % (thm, fn), built, log2[-3000:])
     chk.extra['translated_functions'] = {fn: msg for fn, (ok, msg) in res.items()}
     # translator validation: generated Gallina (extracted) vs the compiled C function
     try:
